@@ -30,6 +30,9 @@ type c20Env struct {
 
 type c20Phase struct {
 	Debug []bool    `json:"debug"`
+	// LStrip: value of the set's LStripBlocks option during this phase (the caller changes
+	// it between phases, like Debug; it has no effect on what the cached files render)
+	LStrip []bool `json:"lstrip_blocks"`
 	Tasks [][]c20Op `json:"tasks"`
 	Env   []c20Env  `json:"env,omitempty"`
 }
@@ -65,7 +68,7 @@ func (c20Checker) ID() string { return "C20" }
 func (c20Checker) ProbeNames() []string {
 	return []string{"concurrent_miss_same_name", "blocked_on_cache_lock", "fault_inside_critical_section",
 		"cleancache_overlapping_miss", "failed_then_healed_then_cached", "hit_after_content_change",
-		"two_sets_same_name", "debug_on_phase", "hit", "miss", "failed_load"}
+		"two_sets_same_name", "debug_on_phase", "hit", "miss", "failed_load", "loader_panic_recovered"}
 }
 func (c20Checker) Meta() CheckerMeta {
 	return CheckerMeta{
@@ -189,7 +192,7 @@ func c20Gen(tp *Tapes) *c20Spec {
 		nf := 1 + f.Draw(2)
 		for i := 0; i < nf; i++ {
 			fs := FaultSpec{Site: KGet, Task: f.Draw(4), Op: -1, Occ: f.Draw(5), Disk: -1}
-			switch f.Draw(4) {
+			switch f.Draw(5) {
 			case 0, 1:
 				fs.Fault = FGetEIO
 			case 2:
@@ -198,6 +201,8 @@ func c20Gen(tp *Tapes) *c20Spec {
 			case 3:
 				fs.Fault = FReadShort
 				fs.Param = uint32(1 + f.Draw(7))
+			case 4:
+				fs.Fault = FGetPanic // the loader's own code dies; the caller recovers and carries on
 			}
 			switch f.Draw(4) {
 			case 0, 1:
@@ -219,6 +224,7 @@ func c20Gen(tp *Tapes) *c20Spec {
 				d = g.Draw(3) == 1
 			}
 			ph.Debug = append(ph.Debug, d)
+			ph.LStrip = append(ph.LStrip, p > 0 && g.Draw(3) == 1)
 		}
 		k := 1 + g.DrawD(4, 6)
 		for t := 0; t < k; t++ {
@@ -529,10 +535,14 @@ func (c20Checker) Run(tp *Tapes, opt RunOpt) *Outcome {
 		sets[i] = pongo2.NewSet(setName, l...)
 		sets[i].Globals["setname"] = fmt.Sprintf("S%d", i)
 		sets[i].Globals[fmt.Sprintf("g%d", i)] = fmt.Sprintf("G%d", i)
-		// distinguishing configuration per set (isolation oracle): a ban and an option
+		// distinguishing configuration per set (isolation oracle): bans and an option
 		if err := sets[i].BanTag([]string{"lorem", "templatetag"}[i%2]); err != nil {
 			out.HarnessErr = "BanTag on a fresh set failed: " + err.Error()
 			return out
+		}
+		if err := sets[i].BanFilter([]string{"upper", "lower"}[i%2]); err != nil {
+			// (a set must be able to ban what another set has banned before)
+			out.addViolation("cross_set_config", "bans", fmt.Sprintf("BanFilter on the fresh set S%d failed: %v", i, err), nil, err.Error())
 		}
 		sets[i].Options.TrimBlocks = i%2 == 0
 	}
@@ -544,6 +554,7 @@ func (c20Checker) Run(tp *Tapes, opt RunOpt) *Outcome {
 
 	for pi, ph := range sp.Phases {
 		for si := range sets {
+			sets[si].Options.LStripBlocks = ph.LStrip[si]
 			if ph.Debug[si] != debugNow[si] {
 				c := s.NextSeq()
 				sets[si].Debug = ph.Debug[si]
@@ -702,13 +713,15 @@ func (c20Checker) Run(tp *Tapes, opt RunOpt) *Outcome {
 							}
 						case g.Fault == FGetEIO:
 							openErrEarlier = true
+						case g.Fault == FGetPanic:
+							outside = true
 						case g.Fault == FGetEnoent:
 							enoents++
 						}
 					} else {
 						// an included file: it lives on the first disk; not part of the model
 						switch {
-						case g.Fault == FGetEIO || g.Fault == FReadEIO:
+						case g.Fault == FGetEIO || g.Fault == FReadEIO || g.Fault == FGetPanic:
 							outside = true
 						case g.Ver >= 0:
 							incServed = true
@@ -728,7 +741,11 @@ func (c20Checker) Run(tp *Tapes, opt RunOpt) *Outcome {
 						o.Cause = causeEnoent
 					}
 				}
-				if r.pan != "" {
+				if r.pan != "" && strings.Contains(r.pan, "sim: injected panic") {
+					// the loader died inside Get and the caller recovered: a failed load like any other
+					o.Err, o.Cause = true, causeOutside
+					out.probe("loader_panic_recovered")
+				} else if r.pan != "" {
 					out.addViolation("panic", "FromCache", "FromCache panicked: "+r.pan, nil, nil)
 					o.Err, o.Cause = true, causeUnexplained
 				} else if r.err != "" || r.tpl == nil {
@@ -826,7 +843,8 @@ func (c20Checker) Run(tp *Tapes, opt RunOpt) *Outcome {
 		// ---- oracle: bans and options of one set never leak into another -------------------
 		if out.HarnessErr == "" {
 			for si, set := range sets {
-				for bi, src := range []string{"{% lorem 1 w %}", "{% templatetag openblock %}"} {
+				for bi, src := range []string{"{% lorem 1 w %}", "{% templatetag openblock %}", `{{ "x"|upper }}`, `{{ "x"|lower }}`} {
+					bi %= 2
 					_, err := set.FromString(src)
 					wantErr := bi == si%2
 					if (err != nil) != wantErr {
